@@ -393,6 +393,10 @@ def weight_case(rng, n, cls=None, dyadic=None):
     if not dyadic and n:
         jitter = rng.random(n) < 0.5
         w[jitter] = numpy.round(rng.uniform(0.05, 3.0, size=int(jitter.sum())), 3)
+    unit = bool(rng.random() < 0.12)
+    if unit:
+        # unit weights: every weight exactly 1 (also under a False validity) - unweighted data with a "weight missing" flag
+        w[:] = 1.0
     density = wpick(rng, [(0.0, 3), (0.2, 3), (0.6, 1), (1.0, 1)])
     missing = rng.random(n) < density
     if density == 1.0:
@@ -402,7 +406,7 @@ def weight_case(rng, n, cls=None, dyadic=None):
         w[missing] = numpy.nan
         return {"kind": "array", "values": w}
     w = w.copy()
-    if missing.any():
+    if missing.any() and not unit:
         w[missing] = numpy.array([pick(rng, [float("nan"), 1e300, 5.5, float("inf")])
                                   for _ in range(int(missing.sum()))])
     return {"kind": "tuple", "values": w, "validity": ~missing}
